@@ -2,11 +2,13 @@
 import collections
 
 PROP = "C02"
-LEAN_MODS = ["Cte.Props.C02"]
+LEAN_MODS = ["Cte.Props.C02", "Cte.Props.C03Values"]
 HARNESS = "c02"
 N = {"quick": 60, "thorough": 600}
 CORRESPONDENCES = ["Model::try_from accepts / rejects exactly when Conv.convert does (on the names and references of the parsed project)",
-                   "ids and references of the converted model = Conv.convert's (ids read back as the names they derive from)"]
+                   "ids and references of the converted model = Conv.convert's (ids read back as the names they derive from)",
+                   "values of the converted spaces (level, height, envelope flag, multiplier, type, ventilation, illuminance), thermal bridges "
+                   "(kind by name, length, psi) and windows (offset, size, set-back) = ConvValues on the typed elements of BdlData.dataNew(text)"]
 SPEC_FAMILIES = ()
 RULE = ("the BDL section of the 12 shipped .ctehexml files and the 56 legacy .cte files (catalogue merged in, as the tools do), generated projects "
         "(1..3 storeys x 1..3 spaces, rectangular / L / pentagonal outlines, interior walls with NEXT-TO, roofs by TOP or own polygon, ground "
@@ -119,7 +121,48 @@ def model_view(o):
     }
 
 
+def _veq(a, b, rounded=False):
+    """implementation value (number / 'nonfinite' / None) vs model value (decimal string or number / 'nonfinite' / None)"""
+    if a is None or b is None:
+        return a is None and b is None
+    if a == "nonfinite" or b == "nonfinite":
+        return a == b
+    a, b = float(a), float(b)
+    return abs(a - b) <= (0.0101 if rounded else 1e-5 * max(1.0, abs(b)))
+
+
+def compare_values(case, out):
+    fam = CORRESPONDENCES[2]
+    imp = case["impl"]
+    if "ok" not in imp:
+        if "spaces" in out and "panic" in imp:
+            return [(fam, f"{case['label']}: conversion panics, the typed model is accepted")]
+        return []
+    if "spaces" not in out:
+        return [(fam, f"{case['label']}: implementation converts, the typed model says {str(out)[:100]}")]
+    iv = imp["ok"]
+    res = []
+    for coll, fields in (("spaces", (("z", False), ("height", True), ("multiplier", False), ("n_v", False), ("illuminance", True))),
+                         ("tbs", (("l", True), ("psi", False))),
+                         ("windows", (("x", False), ("y", False), ("width", False), ("height", False), ("setback", False)))):
+        a, b = iv[coll], out[coll]
+        if [x["name"] for x in a] != [x["name"] for x in b]:
+            res.append((fam, f"{case['label']}: {coll}: implementation has {[x['name'] for x in a][:4]}.., model {[x['name'] for x in b][:4]}.."))
+            continue
+        for x, y in zip(a, b):
+            _stats["values_compared_" + coll] += 1
+            for f, rounded in fields:
+                if not _veq(x.get(f), y.get(f), rounded):
+                    res.append((fam, f"{case['label']}: {coll} {x['name']}: {f} implementation {x.get(f)}, model {y.get(f)}"))
+            for f in ("kind", "inside_tenv"):
+                if f in y and x.get(f) != y.get(f):
+                    res.append((fam, f"{case['label']}: {coll} {x['name']}: {f} implementation {x.get(f)}, model {y.get(f)}"))
+    return res[:4]
+
+
 def compare(case, out):
+    if case.get("op") == "convvalues":
+        return compare_values(case, out)
     imp = case["impl"]
     if imp["parse"] != "ok" or out.get("skip"):
         _stats["not_parsed"] += 1
@@ -150,6 +193,8 @@ def compare(case, out):
 def oracle(case):
     v = []
     imp = case["impl"]
+    if case.get("op") == "convvalues":
+        return v
     if imp["parse"] == "panic" or imp.get("convert") == "panic":
         v.append({"what": f"{case['label']}: {'parsing' if imp['parse'] == 'panic' else 'conversion'} panics: {imp.get('msg')}",
                   "key": {"class": "panic", "stage": "parse" if imp["parse"] == "panic" else "convert"}})
@@ -180,6 +225,8 @@ def oracle(case):
 
 
 def nontrivial(case):
+    if case.get("op") == "convvalues":
+        return "ok" in case["impl"]
     return case["impl"].get("convert") == "ok"
 
 
@@ -189,10 +236,14 @@ def distinct_key(case):
 
 def branch(case, out):
     i = case["impl"]
+    if case.get("op") == "convvalues":
+        return "values:" + ("ok" if "ok" in i else "err")
     return f"{case['kind']}:{i['parse']}:{i.get('convert')}" + (":" + case["def_kind"] if case["kind"] == "mutant" else "")
 
 
 def sample(case, out):
+    if case.get("op") == "convvalues":
+        return {"label": case["label"], "kind": "values"}
     return {"label": case["label"], "kind": case["kind"], "parse": case["impl"]["parse"], "convert": case["impl"].get("convert"), "msg": case["impl"].get("msg")}
 
 
